@@ -149,6 +149,7 @@ func calcOutflow(timestep int, inflow, lateral, bias, prevQi, prevOutflow, prevS
 		// Qindexmin is not small enough with zero outflow, so lets call it zero outflow
 		qi = minQI
 		outflow = 0.0
+		storage = math.Max(prevStorage+(inflow+lateral-math.Min(initialFluxMax, area*netEvapRate))*duration, 0.0)
 		// fmt.Printf("calcOutflow-2, outflow=0, storage=%f\n", storage)
 		return
 	}
